@@ -63,6 +63,11 @@ def seeded(uni: qgen.Universe) -> List[Tuple[str, set]]:
         (f'ds.Select(lambda e: e.{a}("b1").Select(lambda s2: e.{b}("b1").Select(lambda s4: e.{a}("b1").Select(lambda s5: s2.eta()).Sum()).Sum()))', set()),
         (f'ds.Select(lambda e: {{"a": e.{a}("b1").Select(lambda j: j.pt()), "b": e.{b}("b2").Count()}})', set()),
         (f'ds.Select(lambda e: {{"a": e.{a}("b1").First().pt(), "b": Range(0, 3).Select(lambda r: r*2)}})', {"first", "range"}),
+        (f'ds.Select(lambda e: DeltaR(e.{a}("b1").First().eta(), e.{a}("b1").First().phi(), 1.0, 2.0))', {"inject"}),
+        (f'ds.Select(lambda e: fv_mix(e.{a}("b1").First().eta(), e.{b}("b2").Count()))', {"inject"}),
+        (f'ds.Select(lambda e: e.{a}("b1").Select(lambda o: DeltaR(o.eta(), o.phi(), e.{b}("b1").First().eta(), e.{b}("b1").First().phi())))', {"inject"}),
+        ((f'ds.Select(lambda e: e.{a}("b1").First().getAttributeFloat("emf"))' if uni.backend == "atlas"
+          else f'ds.Select(lambda e: isNonnull(e.{a}("b1").First()))'), {"inject"}),
     ]
 
 
@@ -89,6 +94,66 @@ def outer_summand_query(rng: random.Random, uni: qgen.Universe) -> Tuple[str, se
     if k < 0.7:
         return f'ds.Select(lambda e: e.{a}("b1").Select(lambda o: e.{b}("b1").Where(lambda w: e.{c}("b2").Select(lambda t: o.{m}()){agg} > 1).Count()))', set()
     return f'ds.Select(lambda e: e.{a}("b1").Select(lambda o: (o.{m}() if o.nTrk() > 1 else e.{b}("b1").Select(lambda s: (e.{c}("b1").Select(lambda t: s.{m}()){agg} if s.isGood() else 1.0)).Sum())))', {"ifexp"}
+
+MIX_MD = {"metadata_type": "add_cpp_function", "name": "fv_mix", "include_files": [], "arguments": ["a", "b"],
+          "code": ["auto result = a*2.0 + b;"], "return_type": "double"}
+
+
+def metadata(uni: qgen.Universe):
+    """Universe metadata + one two-argument injected C++ function (a CPPCodeValue like the built-in DeltaR)."""
+    return uni.metadata() + [MIX_MD]
+
+
+def _inj_arg(rng: random.Random, uni: qgen.Universe, outer: Optional[str]) -> str:
+    """A scalar argument whose translation opens loops / ifs (First, Count, Sum, conditional) or not."""
+    c = rng.choice(list(uni.colls))
+    b = rng.choice(["b1", "b2"])
+    m = rng.choice(uni.dbl_methods)
+    k = rng.random()
+    if outer is not None and k < 0.2:
+        return f"{outer}.{m}()"
+    if k < 0.5:
+        return f'e.{c}("{b}").First().{m}()'
+    if k < 0.6:
+        return f'e.{c}("{b}").Where(lambda w: w.{m}() > 1).First().{m}()'
+    if k < 0.7:
+        return f'e.{c}("{b}").Count()'
+    if k < 0.8:
+        return f'e.{c}("{b}").Select(lambda s: s.{m}()).Sum()'
+    if k < 0.9:
+        return f'(1.5 if e.{c}("{b}").Count() > 1 else e.{c}("{b}").First().{m}())'
+    return rng.choice(["1.0", "2.0", "0.5"])
+
+
+def _inj_call(rng: random.Random, uni: qgen.Universe, outer: Optional[str]) -> str:
+    k = rng.random()
+    a = lambda: _inj_arg(rng, uni, outer)  # noqa: E731
+    if k < 0.4:
+        return f"DeltaR({a()}, {a()}, {a()}, {a()})"
+    if k < 0.75:
+        return f"fv_mix({a()}, {a()})"
+    c = rng.choice(list(uni.colls))
+    obj = outer if (outer is not None and rng.random() < 0.4) else f'e.{c}("b1").First()'
+    if uni.backend == "atlas":
+        return f'{obj}.getAttributeFloat("emf")'
+    return f"isNonnull({obj})"
+
+
+def inject_query(rng: random.Random, uni: qgen.Universe) -> Tuple[str, set]:
+    """Injected C++ calls (DeltaR, a metadata C++ function, getAttributeFloat / isNonnull) whose arguments open
+    loops and ifs, as event-level scalar columns and inside Select / Where of an outer loop."""
+    c = rng.choice(list(uni.colls))
+    k = rng.random()
+    feat = {"inject"}
+    if k < 0.3:
+        return f"ds.Select(lambda e: {_inj_call(rng, uni, None)})", feat
+    if k < 0.5:
+        return f'ds.Select(lambda e: {{"a": {_inj_call(rng, uni, None)}, "b": e.{c}("b1").Select(lambda j: j.pt()), "c": {_inj_call(rng, uni, None)}}})', feat
+    if k < 0.75:
+        return f'ds.Select(lambda e: e.{c}("b1").Select(lambda o: {_inj_call(rng, uni, "o")}))', feat
+    if k < 0.9:
+        return f'ds.Select(lambda e: e.{c}("b1").Where(lambda o: {_inj_call(rng, uni, "o")} > 0.5).Select(lambda o: o.pt()))', feat
+    return f'ds.Select(lambda e: ({_inj_call(rng, uni, None)} + e.{c}("b2").Count()) * 2)', feat
 
 
 class _Feat(ast.NodeVisitor):
@@ -283,12 +348,14 @@ def _methods(uni: qgen.Universe, extra=()) -> str:
     cpp = {"int": "int", "bool": "bool", "float": "float", "vec_double": "std::vector<double>", "vec_int": "std::vector<int>"}
     ms += [f"{cpp[t]} {m}() const;" for m, t in uni.declared.items()]
     ms += [f"double {m}() const;" for m in extra]
+    ms += ["template <class T> T getAttribute(const std::string&) const;", "bool isNonnull() const;"]
     return " ".join(ms)
 
 
 def standin_header(backend: str, uni: qgen.Universe) -> str:
     h = ["#include <vector>", "#include <numeric>", "#include <cmath>", "#include <stdexcept>", "#include <string>",
-         "struct TTree { TTree(const char*, const char*); template <class T> int Branch(const char*, T*); int Fill(); };"]
+         "struct TTree { TTree(const char*, const char*); template <class T> int Branch(const char*, T*); int Fill(); };",
+         "struct TVector2 { static double Phi_mpi_pi(double); };"]
     by_ns: Dict[str, List[str]] = collections.OrderedDict()
     if backend == "atlas":
         for name, (ct, et) in list(uni.colls.items()) + list(uni.singletons.items()):
@@ -403,6 +470,7 @@ def _cases(tier: str, rng: random.Random):
     n_gen = 150 if tier == "quick" else 4000
     n_mod = 12 if tier == "quick" else 120
     n_out = 12 if tier == "quick" else 120
+    n_inj = 40 if tier == "quick" else 400
     depths = [1, 2, 3, 3] if tier == "quick" else [2, 3, 3, 4, 5]
     for be in BACKENDS:
         uni = qgen.Universe(be)
@@ -414,6 +482,9 @@ def _cases(tier: str, rng: random.Random):
         for _ in range(n_out):
             src, feat = outer_summand_query(rng, uni)
             yield be, uni, src, feat, 5, "outer-summand"
+        for _ in range(n_inj):
+            src, feat = inject_query(rng, uni)
+            yield be, uni, src, feat, 4, "inject"
         for _ in range(n_gen):
             src, q = qgen.gen_query(rng, uni, depth=rng.choice(depths), allow=ALLOW)
             yield be, uni, src, set(q.feat), q.ops, "qgen"
@@ -437,7 +508,7 @@ def check(tier: str, seed: int, t0: float, build: core.BuildStatus) -> int:
     if model is not None:
         for be, uni, src, feat, ops, origin in _cases(tier, rng):
             unis[be] = uni
-            r = run_case(model, be, src, feat, uni, uni.metadata())
+            r = run_case(model, be, src, feat, uni, metadata(uni))
             r.ops = ops
             results.append(r)
             oc.evaluations += 1
@@ -497,7 +568,7 @@ def check(tier: str, seed: int, t0: float, build: core.BuildStatus) -> int:
             oc.violations.append(core.Violation(
                 key=key, what=f"[{r.backend}] {what} - query {r.src[:160]}",
                 replay={"kind": "query", "backend": r.backend, "query": r.src, "features": sorted(r.feat),
-                        "metadata": "qgen.Universe(backend).metadata()", "finding": what, "checker_errors": r.checker,
+                        "metadata": "qgen.Universe(backend).metadata() + [c02.MIX_MD]", "finding": what, "checker_errors": r.checker,
                         "status": r.status, "note": r.note, "gxx_messages": gxx.get(results.index(r)) if gxx else None,
                         "emitted_query_code": _norm(r.raw["query_code"]) if r.raw else None,
                         "emitted_class_decl": _norm(r.raw["class_decl"]) if r.raw else None,
@@ -509,11 +580,11 @@ def check(tier: str, seed: int, t0: float, build: core.BuildStatus) -> int:
         model.close()
     undecided = [r for i, r in enumerate(results) if r.status == "unparsed-other" and i not in gxx]
     oc.distinct_nontrivial = len(distinct)
-    oc.rule = (f"per backend ({', '.join(BACKENDS)}): 7 seeded queries + % templates + outer-only-summand aggregate templates + qgen queries "
+    oc.rule = (f"per backend ({', '.join(BACKENDS)}): 11 seeded queries + % templates + outer-only-summand aggregate templates + injected-C++-call compositions (DeltaR, a metadata C++ function, getAttributeFloat/isNonnull with First/Count/Sum/conditional arguments at event level and inside Select/Where) + qgen queries "
                f"(all feature classes: {', '.join(ALLOW)}; depth up to {3 if tier == 'quick' else 5}); every accepted package: runtime completeness facts, IR round trip, "
                f"extracted checkers; g++ -fsyntax-only on {'every accepted package' if tier == 'thorough' else 'packages the parser could not decide only'}; "
                "non-trivial = at least 3 query operators, distinct by emitted per-event code with generated numbers erased")
-    oc.samples = [{"backend": r.backend, "query": r.src, "status": r.status} for r in results[7:11]]
+    oc.samples = [{"backend": r.backend, "query": r.src, "status": r.status} for r in results[11:15]]
     oc.extra = {
         "level_wording": "checker soundness is PROVED for all programs/events/member states/histories; application to the translator is SAMPLED (translation validation of each generated query's package)",
         "status_histogram": {f"{a}:{b}": n for (a, b), n in sorted(stat.items())},
@@ -557,7 +628,7 @@ def replay(path: str, build: core.BuildStatus) -> int:
     be, src = data["backend"], data["query"]
     uni = qgen.Universe(be)
     model = core.Model()
-    r = run_case(model, be, src, set(data.get("features", [])), uni, uni.metadata())
+    r = run_case(model, be, src, set(data.get("features", [])), uni, metadata(uni))
     model.close()
     print("status:", r.status, r.note)
     print("checker errors:", r.checker)
